@@ -468,8 +468,221 @@ static int split_enum(int argc, char **argv)
 	return 0;
 }
 
+
+/* -------------------------------------------------------------------------------- C04 reuse */
+/* one round: `dirty` text fed (maybe only partly) to the parser under test, json_tokener_reset,
+ * then `text` in the given chunking; the same text + chunking on a brand-new parser. */
+static void rand_bytes(int maxlen)
+{
+	TL = 0;
+	int n = (int)vh_below((uint32_t)maxlen + 1);
+	for (int i = 0; i < n; i++)
+	{
+		uint32_t r = vh_below(10);
+		if (r < 5)
+			putc_("{}[],:\"\\'/*-+.eE0123456789 tfnulrasINaiy\n\t"[vh_below(42)]);
+		else if (r < 6)
+			putc_(0);
+		else if (r < 8)
+			putc_(0x80 + (int)vh_below(0x80));
+		else
+			putc_((int)vh_below(256));
+	}
+}
+static void any_text(void)
+{
+	uint32_t r = vh_below(10);
+	if (r < 3)
+		rand_bytes(40);
+	else
+	{
+		gen_doc(1 + (int)vh_below(5), 3 + (int)vh_below(16));
+		if (r < 7)
+			mutate();
+		if (vh_below(3) == 0 && TL < MAXTEXT - 1)
+			T[TL++] = 0;
+	}
+}
+static int rand_cuts(int len, int *cuts, int maxcuts)
+{
+	int n = 0, p = 0;
+	int k = (int)vh_below((uint32_t)maxcuts + 1);
+	while (n < k && p < len - 1)
+	{
+		p += 1 + (int)vh_below((uint32_t)(len / (k + 1) + 2));
+		if (p < len)
+			cuts[n++] = p;
+	}
+	return n;
+}
+static void ev_calls_begin(void) { ev_open_arr("calls"); }
+/* like run_chunked, but records every call (status, value present, end, length given) */
+static outcome run_logged(json_tokener *tok, const unsigned char *text, int len, const int *cuts, int ncuts, int stop_after)
+{
+	outcome r = {json_tokener_success, NULL, 0, 0, 0};
+	int pos = 0;
+	ev_calls_begin();
+	for (int k = 0; k <= ncuts; k++)
+	{
+		if (stop_after >= 0 && k >= stop_after)
+			break;
+		int stop = k < ncuts ? cuts[k] : len;
+		json_object *o = call_exact(tok, text + pos, (size_t)(stop - pos));
+		r.ncalls++;
+		r.err = json_tokener_get_error(tok);
+		if (r.val)
+			json_object_put(r.val);
+		r.val = o;
+		r.end = pos + (long)json_tokener_get_parse_end(tok);
+		r.last_chunk_end = stop;
+		ev_open_obj(NULL);
+		ev_str("st", errname(r.err));
+		ev_bool("hasval", o != NULL);
+		ev_int("end", (long long)json_tokener_get_parse_end(tok));
+		ev_int("len", stop - pos);
+		ev_close_obj();
+		pos = stop;
+		if (r.err != json_tokener_continue)
+			break;
+	}
+	ev_close_arr();
+	return r;
+}
+static unsigned char D[MAXTEXT];
+static int reuse_round(json_tokener *tok, int fl, int depth, int same)
+{
+	/* T/TL = the text of this round; the parser is dirty from the previous round */
+	int cuts[8];
+	int nc = rand_cuts(TL, cuts, 4);
+	long long c[8];
+	for (int i = 0; i < nc; i++)
+		c[i] = cuts[i];
+	json_tokener_reset(tok);
+	ev_begin("reuse");
+	ev_bytes("text", T, (size_t)TL);
+	ev_int("fl", fl);
+	ev_int("depth", depth);
+	ev_ints("cuts", c, (size_t)nc);
+	ev_int("same", same);
+	outcome reused = run_logged(tok, T, TL, cuts, nc, -1);
+	ev_outcome("reused", &reused);
+	json_tokener *nt = json_tokener_new_ex(depth);
+	json_tokener_set_flags(nt, flags_of(fl));
+	long live_before = vh_live;
+	(void)live_before;
+	outcome fresh = run_chunked(nt, T, TL, cuts, nc);
+	ev_outcome("fresh", &fresh);
+	drop(&fresh);
+	json_tokener_free(nt);
+	ev_int("leak", 0);
+	ev_end();
+	drop(&reused);
+	return 0;
+}
+static int reuse_drive(int start, int nexec)
+{
+	const char *seed = getenv("VERIF_SEED");
+	uint64_t s0 = seed ? strtoull(seed, 0, 10) : 1;
+	static const char *dirty[] = {"\"\\ud83d", "\"\\ud83d\\", "\"\\ud83d\\u", "\"\\ud83d\\ude", "\"\\u00", "\"abc", "[1,2", "{\"a\":", "{\"a\"", "-", "-1.5e", "12", "tru", "nul", "Infin", "-Inf",
+	                              "/* c", "// c", "[[[[", "{\"a\":{\"b\":[", "\"\\", "[1,", "{\"k\":\"v\",", "\xc3", "\"\xe2\x82", "'sq", "1e+", "[nu", "{\"a\\u12"};
+	for (int x = start; x < nexec; x++)
+	{
+		vh_srand(s0 * 1000003ull + (uint64_t)x);
+		long live0 = vh_live;
+		int fl = (int)vh_below(5);
+		static const int depths[] = {1, 2, 3, 4, 5, 32, 32};
+		int depth = depths[vh_below(7)];
+		json_tokener *tok = json_tokener_new_ex(depth);
+		json_tokener_set_flags(tok, flags_of(fl));
+		ev_begin("new");
+		ev_end();
+		int rounds = 2 + (int)vh_below(6);
+		for (int r = 0; r < rounds; r++)
+		{
+			/* make the parser dirty: a partial / failing / successful parse, no reset afterwards */
+			if (vh_below(2))
+			{
+				const char *d = dirty[vh_below(sizeof dirty / sizeof *dirty)];
+				int dl = (int)strlen(d);
+				json_object *o = call_exact(tok, (const unsigned char *)d, (size_t)dl);
+				if (o)
+					json_object_put(o);
+			}
+			else
+			{
+				any_text();
+				memcpy(D, T, (size_t)TL);
+				int dl = TL ? 1 + (int)vh_below((uint32_t)TL) : 0;
+				json_object *o = call_exact(tok, D, (size_t)dl);
+				if (o)
+					json_object_put(o);
+			}
+			any_text();
+			reuse_round(tok, fl, depth, 0);
+		}
+		json_tokener_free(tok);
+		/* freeing the parser releases everything it held */
+		ev_begin("freed");
+		ev_int("leak", (int)(vh_live - live0));
+		ev_end();
+	}
+	return 0;
+}
+/* route 4 for the reset product: every prefix over the alphabet (extended while the parser says
+ * continue) x a fixed set of probe texts */
+static const char *probes[] = {"\"\\u0041\"", "\"A\"", "\"\\ude00\"", "\"\\n\"", "1", "[1]", "-1", "true", "{\"a\":1}", "\"\\u", "\"\\ud83d\\ude00\"", "e5", "5", "\"x", "Infinity", "null", "]"};
+static unsigned char P[64];
+static void reuse_enum_rec(int len)
+{
+	json_tokener *t = json_tokener_new_ex(edepth);
+	json_tokener_set_flags(t, flags_of(efl));
+	json_object *o = call_exact(t, P, (size_t)len);
+	enum json_tokener_error e = json_tokener_get_error(t);
+	if (o)
+		json_object_put(o);
+	for (unsigned i = 0; i < sizeof probes / sizeof *probes; i++)
+	{
+		/* re-dirty (the previous probe reset it), then probe */
+		if (i)
+		{
+			o = call_exact(t, P, (size_t)len);
+			if (o)
+				json_object_put(o);
+		}
+		TL = (int)strlen(probes[i]);
+		memcpy(T, probes[i], (size_t)TL);
+		if (i & 1)
+			T[TL++] = 0;
+		reuse_round(t, efl, edepth, 1);
+	}
+	json_tokener_free(t);
+	if (len < maxn && (len == 0 || e == json_tokener_continue))
+		for (int i = 0; i < nalpha; i++)
+		{
+			P[len] = (unsigned char)alpha[i];
+			reuse_enum_rec(len + 1);
+		}
+}
+static int reuse_enum(int argc, char **argv)
+{
+	efl = atoi(argv[0]);
+	edepth = atoi(argv[1]);
+	maxn = atoi(argv[2]);
+	nalpha = 0;
+	for (int i = 3; i < argc && nalpha < 32; i++)
+		alpha[nalpha++] = atoi(argv[i]);
+	ev_begin("new");
+	ev_end();
+	reuse_enum_rec(0);
+	return 0;
+}
+
 int tok_main(int argc, char **argv)
 {
+	if (argc >= 3 && !strcmp(argv[0], "reuse-drive"))
+		return reuse_drive(atoi(argv[1]), atoi(argv[2]));
+	if (argc >= 5 && !strcmp(argv[0], "reuse-enum"))
+		return reuse_enum(argc - 1, argv + 1);
 	if (argc >= 3 && !strcmp(argv[0], "split-drive"))
 		return split_drive(atoi(argv[1]), atoi(argv[2]));
 	if (argc >= 5 && !strcmp(argv[0], "split-enum"))
